@@ -10,9 +10,11 @@ translated from the source that exists in /repo *now*:
   * `claim_mpp_part`: both entry chains (open channel: `if let Some(raa_blocker) = raa_blocker_opt`; closed channel), TRANSLATED;
   * `handle_monitor_update_release`: the `retain` predicate and the remove-if-empty of the completed blocker, TRANSLATED;
   * `raa_monitor_updates_held`: the map disjunct (`.get(&channel_id).map(|v| [!]v.is_empty()).unwrap_or(b)`), TRANSLATED; the
-    pending-events disjunct is pinned textually;
+    pending-events disjunct is TRANSLATED as well (`heldByEvents`);
   * `internal_revoke_and_ack` passes `raa_monitor_updates_held(..)` of `msg.channel_id` to `Channel::revoke_and_ack` as
-    `mon_update_blocked` (pinned), the startup re-add of claim_mpp_part (`if !actions_list.contains(..) { push }`) is pinned.
+    `mon_update_blocked` (pinned), the startup re-add of claim_mpp_part (`if !actions_list.contains(..) { push }`) is pinned;
+  * `claim_mpp_part`, FreeDuplicateClaimImmediately: the stateful retain that removes ONE copy of the duplicate blocker, TRANSLATED
+    (`releaseDuplicate`).
 
 TRANSLATE-ERROR (exit 2) when the shape is not the expected one.
 """
@@ -108,6 +110,20 @@ def main(out_path):
         let actions_list = actions.entry(chan_id).or_insert_with(Vec::new);
         if !actions_list.contains(&raa_blocker) { debug_assert!(during_init); actions_list.push(raa_blocker); }""")
     if readd not in b: raise TranslateError("claim_mpp_part: the startup re-add of the RAA blocker changed shape")
+    # FreeDuplicateClaimImmediately: only ONE copy of the duplicatively added blocker is removed (stateful retain, TRANSLATED)
+    rx = (r'ifletMonitorUpdateCompletionAction::FreeDuplicateClaimImmediately\{downstream_counterparty_node_id:node_id,blocking_action:blocker,downstream_channel_id:channel_id,\}=action'
+          r'\{ifletSome\(peer_state_mtx\)=per_peer_state\.get\(&node_id\)\{letmutpeer_state=peer_state_mtx\.lock\(\)\.unwrap\(\);'
+          r'letentry=peer_state\.actions_blocking_raa_monitor_updates\.entry\(channel_id\);ifletbtree_map::Entry::Occupied\(mutentry\)=entry\{'
+          r'letmutfound_blocker=(true|false);entry\.get_mut\(\)\.retain\(\|iter\|\{'
+          r'letfirst_blocker=(!?)found_blocker;if\*iter(==|!=)blocker\{found_blocker=(true|false);\}'
+          r'\*iter(==|!=)blocker(\|\||&&)(!?)first_blocker\}\);(ifentry\.get\(\)\.is_empty\(\)\{entry\.remove\(\);\})?')
+    m = re.search(rx, b)
+    if not m: raise TranslateError("claim_mpp_part: FreeDuplicateClaimImmediately's removal of one duplicate blocker changed shape")
+    init, neg1, cmp1, setv, cmp2, conn, neg2, rm = m.groups()
+    dup = ('BlockMap.retainStateAt m channel_id %s (fun found_blocker iter =>\n      let first_blocker := %sfound_blocker\n'
+           '      let found_blocker := if iter %s blocker then %s else found_blocker\n      (found_blocker, (iter %s blocker %s %sfirst_blocker)))'
+           % (init, '!' if neg1 else '', cmp1, setv, cmp2, conn, '!' if neg2 else ''))
+    if rm: dup = 'BlockMap.removeIfEmpty (%s) channel_id' % dup
     # ---- handle_monitor_update_release ---------------------------------------------------------------------------
     b = squeeze(fn_body(cm, 'handle_monitor_update_release'))
     rx = (r'ifletSome\(blocker\)=completed_blocker\.take\(\)\{letentry=peer_state\.actions_blocking_raa_monitor_updates\.entry\(channel_id\);'
@@ -132,10 +148,14 @@ def main(out_path):
     m = re.match(r'actions_blocking_raa_monitor_updates\.get\(&channel_id\)\.map\(\|v\|(!?)v\.is_empty\(\)\)\.unwrap_or\((true|false)\)\|\|', b)
     if not m: raise TranslateError("raa_monitor_updates_held: the map disjunct changed shape")
     held = '((m channel_id).map (fun v => %sv.isEmpty)).getD %s' % ('!' if m.group(1) else '', m.group(2))
-    ev = squeeze("""self.pending_events.lock().unwrap().iter().any(|(_, action)| {
-        if let Some(EventCompletionAction::ReleaseRAAChannelMonitorUpdate { channel_funding_outpoint: _, channel_id: ev_channel_id, counterparty_node_id: ev_counterparty_node_id }) = action {
-            *ev_channel_id == channel_id && *ev_counterparty_node_id == counterparty_node_id } else { false } })""")
-    if b[m.end():] != ev: raise TranslateError("raa_monitor_updates_held: the pending-events disjunct changed shape")
+    rx = (r'self\.pending_events\.lock\(\)\.unwrap\(\)\.iter\(\)\.(any|all)\(\|\(_,action\)\|\{ifletSome\(EventCompletionAction::ReleaseRAAChannelMonitorUpdate\{'
+          r'channel_funding_outpoint:_,channel_id:ev_channel_id,counterparty_node_id:ev_counterparty_node_id\}\)=action\{'
+          r'\*(ev_channel_id|ev_counterparty_node_id)(==|!=)(channel_id|counterparty_node_id)(&&|\|\|)\*(ev_channel_id|ev_counterparty_node_id)(==|!=)(channel_id|counterparty_node_id)\}else\{(true|false)\}\}\)')
+    me = re.fullmatch(rx, b[m.end():])
+    if not me: raise TranslateError("raa_monitor_updates_held: the pending-events disjunct changed shape")
+    q, l1, c1, r1, conn, l2, c2, r2, els = me.groups()
+    held_ev = ('evs.%s (fun action => match action with\n    | some (ev_channel_id, ev_counterparty_node_id) => (%s %s %s %s %s %s %s)\n    | none => %s)'
+               % (q, l1, c1, r1, conn, l2, c2, r2, els))
     # ---- internal_revoke_and_ack ---------------------------------------------------------------------------------
     b = squeeze(fn_body(cm, 'internal_revoke_and_ack'))
     pin = squeeze("""let mon_update_blocked = self.raa_monitor_updates_held(&peer_state.actions_blocking_raa_monitor_updates, msg.channel_id, *counterparty_node_id);""")
@@ -156,6 +176,11 @@ def main(out_path):
          'def release (m : BlockMap) (channel_id blocker : Nat) : BlockMap :=', '  ' + release, '',
          '/-- raa_monitor_updates_held: the map disjunct (translated); the pending-events disjunct is pinned -/',
          'def held (m : BlockMap) (channel_id : Nat) : Bool :=', '  ' + held, '',
+         '/-- raa_monitor_updates_held: the pending-events disjunct (translated); an event action is `some (channel_id, counterparty_node_id)`',
+         '    for `EventCompletionAction::ReleaseRAAChannelMonitorUpdate`, `none` for no / any other action -/',
+         'def heldByEvents (evs : List (Option (Nat × Nat))) (channel_id counterparty_node_id : Nat) : Bool :=', '  ' + held_ev, '',
+         '/-- claim_mpp_part, `FreeDuplicateClaimImmediately`: the stateful retain that drops ONE copy of the blocker (translated) -/',
+         'def releaseDuplicate (m : BlockMap) (channel_id blocker : Nat) : BlockMap :=', '  ' + dup, '',
          'end Ldk.RaaBlockGen']
     text = '\n'.join(L) + '\n'
     old = open(out_path).read() if os.path.exists(out_path) else None
